@@ -5,7 +5,7 @@
 From Coq Require Import List NArith Bool.
 From Coq.Strings Require Import Byte.
 From MS Require Import Base.Bytes Base.Outcome Base.Prog Base.ProgSpec Webp.Container Webp.ContainerProofsFault
-  Webp.ContainerProofsTotal.
+  Webp.ContainerProofsTotal Webp.Vp8l Webp.WebpTotalProofs.
 Open Scope N_scope.
 
 (* for every reader, reader state, operation index, error kind, configuration, lossless validator and fuel: a fault at
@@ -37,8 +37,16 @@ Print Assumptions C13_reader_error_propagates_webp.
    configurations, every fuel, and every lossless validator that itself reports no I/O error and does not panic. *)
 Theorem C13_no_spurious_io_webp :
   forall (lossless : N -> N -> bytes -> res unit) (allow lenient : bool) (ms : N) (inp : input) (fuel : nat),
-  (forall w h b, rgood (lossless w h b)) -> (forall w h b e, lossless w h b <> EIo e) ->
+  (forall w h b, ldims w h -> rgood (lossless w h b)) -> (forall w h b e, ldims w h -> lossless w h b <> EIo e) ->
   (lenient = true -> ilen inp + 2 ^ 32 <= ms) ->
   forall e, webp_sanitize lossless allow lenient ms inp fuel <> EIo e.
 Proof. exact webp_sanitize_no_io. Qed.
 Print Assumptions C13_no_spurious_io_webp.
+
+(* with the lossless validator of the model plugged in: fault-free inputs give Ok or a parse error, never Io *)
+Theorem C13_no_spurious_io_webpsan :
+  forall (allow lenient : bool) (ms : N) (inp : input) (fuel : nat) (e : ioerr),
+  (lenient = true -> ilen inp + 2 ^ 32 <= ms) ->
+  webp_sanitize lossless_read allow lenient ms inp fuel <> EIo e.
+Proof. exact webpsan_no_io. Qed.
+Print Assumptions C13_no_spurious_io_webpsan.
